@@ -3,31 +3,41 @@
    Directives used: those of ExtrOcamlBasic only (bool, option, unit, list, prod, sumbool, sumor);
    no Extract Constant; Z / positive stay as extracted inductives. *)
 Require Import ExtrOcamlBasic.
-Require Import Base Fixed Panic Curve Bank BankOps Risk Handlers TransferFee XrateConsts Xrate Price ConfigGen Config Emode ConfigPaths ConfigHealth PrivGen Privilege Deleverage.
+Require Import Base Fixed Panic Curve Bank BankOps Risk Handlers TransferFee XrateConsts Xrate Price ConfigGen Config Emode ConfigPaths ConfigHealth PrivGen Privilege Deleverage AnchorTypes AnchorSem Gate AccountsTable HandlerFacts Spec AuthCell AuthFixture TxConstants Tx TxToy.
 Extraction Language OCaml.
 Separate Extraction
   p_pause p_unpause p_unpause_if_expired p_is_expired p_can_pause c_is_expired ix_propagate
   ix_panic_pause ix_panic_unpause ix_panic_unpause_permissionless is_protocol_paused mkP
   ir_validate calc_interest_rate mpc legacy_curve
   bstep brun la_empty mkBW accrual_state_changes remaining_deposit_capacity pre_fee_deposit_amount
-  calculate_fee urun hstep hrun fixed_feed mkHW health_components check_init_health i80_from_i128_checked adjust_i128 adjust_i64 adjust_u64
-  collateral_to_liquidity_from_scaled liquidity_to_collateral_from_scaled liq_to_col_ratio
-  col_to_liq_ratio scale_supplies convert_decimals u68f60_to_i80f48 k_total_supply k_scaled_supplies
-  k_collateral_to_liquidity k_liquidity_to_collateral k_is_stale decimal_to_i80f48 s_total_liquidity
-  s_scaled_supplies s_collateral_to_liquidity s_liquidity_to_collateral s_is_stale
-  s_rate_from_reserve s_rate_collateral_to_liquidity s_rate_liquidity_to_collateral
-  get_precision_increase d_scaled_balance_increment d_scaled_balance_decrement
-  d_withdraw_token_amount d_adjust_i64 d_adjust_u64 d_adjust_i128 d_is_stale
-  scale_drift_deposit_limit kamino_pyth kamino_swb solend_pyth solend_swb drift_pyth drift_swb
-  of_int E_Drift_ScalingOverflow E_Drift_MathError E_Kamino_MathError E_Solend_MathError
-  E_Solend_ReserveStale E_Anchor_InvalidNumericConversion DRIFT_SCALED_BALANCE_DECIMALS
-  DRIFT_EXP_10_I80F48 PE_BORSH_IO px_scale_supplies px_try_from_bank px_try_from_bank_with_max_age
-  px_price_of_type px_price_and_conf px_try_get_price_feed px_single_balance_components
-  px_liquidation_prices px_receivership_withdraw_price bc_validate ss_validate calc_max_leverage
-  em_validate u32_to_basis basis_to_u32 bank_configure bank_configure_unfrozen
-  reconcile_emode_configs calc_value_dec ix_add_bank ix_add_bank_permissionless ix_configure_bank
-  ix_configure_interest_only ix_configure_limits_only ix_configure_emode ix_clone_emode
-  ix_propagate_staked ix_migrate_curve ix_group_set_caps ix_init_staked_settings
-  ix_edit_staked_settings es_zeroed account_health account_health_no_emode probe_position apply_reqs
-  OP_KILLED DEFAULT_INIT_MAX_EMODE_LEVERAGE DEFAULT_MAINT_MAX_EMODE_LEVERAGE
-  pstep zeros dv_tx dv_purge configure_withdrawal_limit positions wrun.
+  calculate_fee urun hstep hrun fixed_feed mkHW health_components check_init_health
+  i80_from_i128_checked adjust_i128 adjust_i64 adjust_u64 collateral_to_liquidity_from_scaled
+  liquidity_to_collateral_from_scaled liq_to_col_ratio col_to_liq_ratio scale_supplies
+  convert_decimals u68f60_to_i80f48 k_total_supply k_scaled_supplies k_collateral_to_liquidity
+  k_liquidity_to_collateral k_is_stale decimal_to_i80f48 s_total_liquidity s_scaled_supplies
+  s_collateral_to_liquidity s_liquidity_to_collateral s_is_stale s_rate_from_reserve
+  s_rate_collateral_to_liquidity s_rate_liquidity_to_collateral get_precision_increase
+  d_scaled_balance_increment d_scaled_balance_decrement d_withdraw_token_amount d_adjust_i64
+  d_adjust_u64 d_adjust_i128 d_is_stale scale_drift_deposit_limit kamino_pyth kamino_swb solend_pyth
+  solend_swb drift_pyth drift_swb of_int E_Drift_ScalingOverflow E_Drift_MathError
+  E_Kamino_MathError E_Solend_MathError E_Solend_ReserveStale E_Anchor_InvalidNumericConversion
+  DRIFT_SCALED_BALANCE_DECIMALS DRIFT_EXP_10_I80F48 PE_BORSH_IO px_scale_supplies px_try_from_bank
+  px_try_from_bank_with_max_age px_price_of_type px_price_and_conf px_try_get_price_feed
+  px_single_balance_components px_liquidation_prices px_receivership_withdraw_price bc_validate
+  ss_validate calc_max_leverage em_validate u32_to_basis basis_to_u32 bank_configure
+  bank_configure_unfrozen reconcile_emode_configs calc_value_dec ix_add_bank
+  ix_add_bank_permissionless ix_configure_bank ix_configure_interest_only ix_configure_limits_only
+  ix_configure_emode ix_clone_emode ix_propagate_staked ix_migrate_curve ix_group_set_caps
+  ix_init_staked_settings ix_edit_staked_settings es_zeroed account_health account_health_no_emode
+  probe_position apply_reqs OP_KILLED DEFAULT_INIT_MAX_EMODE_LEVERAGE
+  DEFAULT_MAINT_MAX_EMODE_LEVERAGE pstep zeros dv_tx dv_purge configure_withdrawal_limit positions
+  wrun cell fixture_names fixture_accounts fixture_now0 accounts_table tw_owner tw_disc tw_setnum
+  tw_flag tw_setkey tw_del tw_clone tw_now mkWorld mkBinding PROG_MARGINFI PROG_SYSTEM PROG_TOKEN
+  PROG_TOKEN22 PROG_KAMINO PROG_FARMS PROG_DRIFT PROG_SOLEND PROG_ATA PROG_STRANGER
+  SYSVAR_INSTRUCTIONS SYSVAR_RENT validate_bank_state weighted_asset_value_rule opstate_of_Z
+  num_field acct_of is_signer_authorized account_not_frozen_for_authority validate_ix_first
+  validate_ix_last validate_ixes_exclusive validate_instructions check_flashloan_can_start
+  flags_of_Z Z_of_flags toy_exec_tx_r toy_h_end toy_init toy_maint toy_equity toy_world top proxy
+  mk_CB mk_FG mk_SL mk_EL mk_SD mk_ED mk_SF mk_EF mk_WD mk_RP mk_BR mk_DP mk_IR mk_LQ mk_HB mk_TR
+  IX_IR IX_SL IX_EL IX_WD IX_RP IX_SE IX_WE IX_KW IX_DW IX_SF IX_EF IX_SD IX_ED IX_BR IX_DP IX_LQ
+  IX_HB IX_TR IX_SW IX_PH IX_KRR IX_KRO IX_DUS.
